@@ -51,8 +51,8 @@ CLAIMED = {
          "Everything else of C14 is asynchronous connection code and NOT decided: reacting to UNPREPARED, re-preparing on the same node, comparing the re-prepared id, repeating the request with the same values, batches. Metadata = (column count, optional id), ids are abstract identities. Native replay drives a real Connection (to a local listener that never answers) and real PreparedStatement objects through hooks.",
          S),
  "C15": ("DESIGN.md §5 C15",
-         "One TableTablets::add_tablet step from an ARBITRARY invariant-satisfying pre-state of N tablets (N <= 4 quick, <= 6 thorough; all bounds symbolic i64) followed by tablet_for_token on an arbitrary token: list stays sorted/disjoint, exactly the overlapped tablets disappear, lookup = newest covering tablet or nothing (never stale). Unknown-replica bookkeeping (what lets maintenance be skipped): TableTablets::add_tablet and TabletsInfo::add_tablet preserve 'unresolved tablet => table flag => info flag' and never clear a flag; TabletsInfo::add_tablet routes the tablet to the table named by its TableSpec (creating it if missing) and leaves other tables untouched.",
-         "Vec/slice operations are modelled as sequence operations (partition_point on partitioned slices, drain, insert, get); the hashbrown map of TabletsInfo is an association list over concrete table names (2 existing tables + 1 new). perform_maintenance itself (HashSet/HashMap of Arc<Node>), per-DC restriction and RawTablet::from_custom_payload validation are NOT decided.",
+         "One TableTablets::add_tablet step from an ARBITRARY invariant-satisfying pre-state of N tablets (N <= 4 quick, <= 6 thorough; all bounds symbolic i64) followed by tablet_for_token on an arbitrary token: list stays sorted/disjoint, exactly the overlapped tablets disappear, lookup = newest covering tablet or nothing (never stale). Unknown-replica bookkeeping (what lets maintenance be skipped): TableTablets::add_tablet and TabletsInfo::add_tablet preserve 'unresolved tablet => table flag => info flag' and never clear a flag; TabletsInfo::add_tablet routes the tablet to the table named by its TableSpec (creating it if missing) and leaves other tables untouched. TableTablets::perform_maintenance (N <= 2, thorough 3) with the environment's answers symbolic (tablet resolvable now / has a replica on a removed node, any node removed / re-created): exactly the resolved-or-resolvable tablets without a replica on a removed node remain, in order with their old ranges, none unresolved, flag cleared - a discarded tablet's tokens are answered by nothing rather than stale data.",
+         "Vec/slice operations are modelled as sequence operations (partition_point on partitioned slices, drain, insert, get); the hashbrown map of TabletsInfo is an association list over concrete table names (2 existing tables + 1 new). TabletsInfo::perform_maintenance (dropping tables, HashMap::retain), the contents of replica lists (from_raw_replicas, update_stale_nodes), per-DC restriction and RawTablet::from_custom_payload validation are NOT decided.",
          S + " (+ one Kani cross-check on the empty list)"),
  "C16": ("DESIGN.md §5 C16",
          "The code GENERATED by the derive macros (MIR of the harness crate, regenerated from /repo/scylla-macros on every run) is symbolically executed for a family of 3-field structs with all field values symbolic. SerializeValue: by-name plain / allow_missing on 1st / 2nd field / forbid_excess_udt_fields / rename / skip, and enforce_order plain / forbid_excess / skip_name_checks, x 25-30 database-side field lists (all 6 permutations, every single missing field, unknown fields at every position): values land in the database's positions, unknown fields become null cells unless trailing (or an error when forbidden), a missing field is an error unless allow_missing, the ordered flavour accepts exactly the declared order (prefix rule for excess fields). DeserializeValue (type_check + deserialize, with the driver contract that deserialize runs only on type-checked types): by-name plain / allow_missing / default_when_null + Option / forbid_excess / rename + skip, and enforce_order plain / forbid_excess / skip_name_checks / allow_missing + default_when_null, x 16-21 field lists x null and absent-from-bytes patterns: every field is filled from the like-named (ordered: same-position, name-checked) UDT field, excess fields ignored unless forbidden, missing fields are type-check errors unless allow_missing, null is an error for i32 unless default_when_null and None for Option, and the generated code never panics on type-checked input.",
@@ -112,4 +112,4 @@ def manifest():
         "notes": "Technique family: solver-based checking of the real code. exit 0 = all obligations discharged within stated bounds; exit 1 = reproducing counterexample; exit 2 = inconclusive (never reported as pass).",
     }
 
-HOOK_COMMITS = ['1dd854c', 'c81cb68', '3bca3b6', '3ff90ff', 'ace7ba7', '423595e', '1865a12', '55a0502', '6db07cc', '8989f50', 'b07dfd2', '2f1ba89', '2f862e8', 'adaafd7', '8ddb525']
+HOOK_COMMITS = ['1dd854c', 'c81cb68', '3bca3b6', '3ff90ff', 'ace7ba7', '423595e', '1865a12', '55a0502', '6db07cc', '8989f50', 'b07dfd2', '2f1ba89', '2f862e8', 'adaafd7', '8ddb525', 'a6c1b91']
